@@ -1,7 +1,9 @@
 import PytezosModel.Michelson.Session
-/-! helper lemmas for C22: values and references, the heap as a store, and the simulation of the heap run of a
-well-formed session state (every stacked big map points at the interpreter's context) by the aliasing-free run over a
-single context (`unitStore`) -/
+/-! helper lemmas for C22: values and references, the heap as a store, `MichelsonStack` primitives under renaming of the
+items, the simulation of the heap run of a well-formed session state (every stacked big map points at the interpreter's
+context) by the aliasing-free run over a single context (`unitStore`) — leaves first, then lifted through DIP bodies —
+and the bookkeeping of the `protected` counter (back where it was, or 0, after every successful instruction) -/
+set_option linter.unusedSimpArgs false   -- `cases x <;> simp [...]`: not every branch needs every lemma
 namespace Proofs.C22
 open Impl.Session Impl.BigMap
 
@@ -69,7 +71,53 @@ theorem get_set {α : Type} (l : List α) (i : Nat) (a b : α) (h : l[i]? = some
     | succ i => simp at h; simp [ih i h]
 
 
+/-! ### `MichelsonStack` primitives commute with renaming of the items -/
+
+section stk
+variable {α β : Type} (f : α → β) (s : Stk α)
+
+@[simp] theorem map_prot : (s.map f).prot = s.prot := rfl
+@[simp] theorem map_items : (s.map f).items = s.items.map f := rfl
+
+theorem push_map (v : α) : (s.map f).push (f v) = (s.push v).map f := by
+  simp [Stk.map, Stk.push, List.map_take, List.map_drop]
+
+theorem peek_map : (s.map f).peek = s.peek.map f := by
+  simp only [Stk.peek, Stk.map, List.isEmpty_map]
+  split <;> simp
+
+theorem pop_map (k : Nat) : (s.map f).pop k = (s.pop k).map fun r => (r.1.map f, r.2.map f) := by
+  simp only [Stk.pop, Stk.map, List.length_map]
+  split <;> simp [List.map_take, List.map_drop]
+
+theorem popArgs_map (k : Nat) : (s.map f).popArgs k = (s.popArgs k).map fun r => (r.1.map f, r.2.map f) := by
+  simp only [Stk.popArgs]
+  split
+  · simp
+  · exact pop_map f s k
+
+theorem protect_map (k : Nat) : (s.map f).protect k = (s.protect k).map (Stk.map f) := by
+  by_cases h : s.items.length < k <;> simp [Stk.protect, Stk.map, h]
+
+theorem restore_map (k : Nat) : (s.map f).restore k = (s.restore k).map (Stk.map f) := by
+  by_cases h : s.prot < k <;> simp [Stk.restore, Stk.map, h]
+
+theorem pushAll_map (vs : List α) : (s.map f).pushAll (vs.map f) = (s.pushAll vs).map f := by
+  induction vs with
+  | nil => rfl
+  | cons v vs ih =>
+    simp only [Stk.pushAll, List.map_cons, List.foldr_cons] at ih ⊢
+    rw [ih, push_map]
+
+end stk
+
 /-! ### stack-only instructions commute with renaming of references -/
+
+theorem mutezOf_map {ρ ρ' : Type} (f : ρ → ρ') (v : Int) : (mutezOf (ρ := ρ') v) = (mutezOf (ρ := ρ) v).map (Val.map f) := by
+  simp only [mutezOf]
+  split
+  · rfl
+  · split <;> rfl
 
 def mapRes {ρ ρ' : Type} (f : ρ → ρ') : Except Impl.Session.Err (List (Val ρ)) → Except Impl.Session.Err (List (Val ρ'))
   | .ok st => .ok (st.map (Val.map f))
@@ -83,7 +131,6 @@ theorem stackOnly_map {ρ ρ' : Type} (f : ρ → ρ') (b : Basic) (st : List (V
   | unit => simp [stackOnly, mapRes, Val.map]
   | nilOp => simp [stackOnly, mapRes, Val.map]
   | some => cases st <;> simp [stackOnly, mapRes, Val.map]
-  | dup => cases st <;> simp [stackOnly, mapRes, Val.map]
   | drop => cases st <;> simp [stackOnly, mapRes, Val.map]
   | failwith => cases st <;> simp [stackOnly, mapRes, Val.map]
   | swap => rcases st with _ | ⟨x, _ | ⟨y, st⟩⟩ <;> simp [stackOnly, mapRes, Val.map]
@@ -100,12 +147,12 @@ theorem stackOnly_map {ρ ρ' : Type} (f : ρ → ρ') (b : Basic) (st : List (V
     rcases st with _ | ⟨x, _ | ⟨y, st⟩⟩
     · simp [stackOnly, mapRes]
     · cases x <;> simp [stackOnly, mapRes, Val.map]
-    · cases x <;> cases y <;> simp [stackOnly, mapRes, Val.map]
-  | emptyBigMap => simp [stackOnly]
-  | update => simp [stackOnly]
-  | get => simp [stackOnly]
-  | mem => simp [stackOnly]
-  | getAndUpdate => simp [stackOnly]
+    · cases x <;> cases y <;> try (simp [stackOnly, mapRes, Val.map]; done)
+      rename_i a b
+      simp only [List.map_cons, Val.map, stackOnly, Option.map_some, Option.some.injEq]
+      rw [mutezOf_map f]
+      cases mutezOf (ρ := ρ) ((a + b : Nat) : Int) <;> simp [mapRes, Except.map]
+  | _ => simp [stackOnly]
 
 
 /-! ### simulation: the heap run of a well-formed state is the single-context run, written back at `cur` -/
@@ -185,46 +232,218 @@ theorem stepBigMap_sim (b : Basic) (pst : List (Val Unit)) :
   | _ => simp [stepBigMap, mapRes]
 
 
+
+abbrev rbS (cur : Nat) (st : Stk (Val Unit)) : Stk (Val Nat) := st.map (Val.map fun _ => cur)
+
+def mapResS (cur : Nat) : Except Fail (Stk (Val Unit)) → Except Fail (Stk (Val Nat))
+  | .ok st => .ok (rbS cur st)
+  | .error f => .error f
+
+theorem readEnv_map {ρ ρ' : Type} (f : ρ → ρ') (c : Impl.Session.Ctx) (b : Basic) :
+    (readEnv (ρ := ρ') c b) = (readEnv (ρ := ρ) c b).map (Val.map f) := by
+  cases b <;> simp only [readEnv] <;> try rfl
+  · exact mutezOf_map f _
+  · exact mutezOf_map f _
+  · cases c.sender with
+    | none => rfl
+    | some x => cases x <;> rfl
+  · cases c.source with
+    | none => rfl
+    | some x => cases x <;> rfl
+
 include hc in
-theorem stepBasic_sim (b : Basic) (pst : List (Val Unit)) :
-    stepBasic heapStore cur b (rbs cur pst) h =
-      (mapRes (fun _ => cur) (stepBasic unitStore () b pst c).1, h.set cur (stepBasic unitStore () b pst c).2) := by
+theorem stepPops_sim (b : Basic) (pst : Stk (Val Unit)) :
+    stepPops heapStore b (rbS cur pst) h =
+      (mapResS cur (stepPops unitStore b pst c).1, h.set cur (stepPops unitStore b pst c).2) := by
   have hs := set_self h cur c hc
-  simp only [stepBasic, rbs, stackOnly_map]
-  cases hso : stackOnly b pst with
-  | some r => simp [hs]
-  | none =>
-    simp only [Option.map_none]
-    cases b with
-    | emptyBigMap => simp [heapStore, unitStore, hc, mapRes, Val.map]
-    | get => simp [hs, stepBigMap_sim cur h c hc, rbs]
-    | mem => simp [hs, stepBigMap_sim cur h c hc, rbs]
-    | update => simp [hs, stepBigMap_sim cur h c hc, rbs]
-    | getAndUpdate => simp [hs, stepBigMap_sim cur h c hc, rbs]
-    | _ => simp [hs, stepBigMap, mapRes]
+  simp only [stepPops, rbS, popArgs_map]
+  cases hp : pst.popArgs (arity b) with
+  | none => simp [failAt, mapResS, hs]
+  | some r =>
+    obtain ⟨xs, st1⟩ := r
+    simp only [Option.map_some, stackOnly_map]
+    cases hso : stackOnly b xs with
+    | some r =>
+      cases r with
+      | ok ys => simp [mapRes, mapResS, hs, pushAll_map, rbS]
+      | error e => simp [mapRes, mapResS, hs, failAt]
+    | none =>
+      simp only [Option.map_none]
+      have := stepBigMap_sim cur h c hc b xs
+      simp only [rbs] at this
+      rw [this]
+      cases stepBigMap unitStore c b xs with
+      | ok ys => simp [mapRes, mapResS, hs, pushAll_map, rbS]
+      | error e => simp [mapRes, mapResS, hs, failAt]
+
+include hc in
+theorem stepEnv_sim (b : Basic) (pst : Stk (Val Unit)) :
+    stepEnv heapStore cur b (rbS cur pst) h =
+      (mapResS cur (stepEnv unitStore () b pst c).1, h.set cur (stepEnv unitStore () b pst c).2) := by
+  have hs := set_self h cur c hc
+  have hrd : heapStore.rd h cur = some c := hc
+  have hrd' : unitStore.rd c () = some c := rfl
+  simp only [stepEnv, hrd, hrd']
+  rw [readEnv_map (fun (_ : Unit) => cur) c b]
+  cases readEnv (ρ := Unit) c b with
+  | ok v => simp [Except.map, mapResS, hs, rbS, push_map]
+  | error e => simp [Except.map, mapResS, hs, failAt]
+
+include hc in
+theorem stepBasic_sim (b : Basic) (pst : Stk (Val Unit)) :
+    stepBasic heapStore cur b (rbS cur pst) h =
+      (mapResS cur (stepBasic unitStore () b pst c).1, h.set cur (stepBasic unitStore () b pst c).2) := by
+  have hs := set_self h cur c hc
+  have hrd : heapStore.rd h cur = some c := hc
+  have hrd' : unitStore.rd c () = some c := rfl
+  cases b with
+  | dup =>
+    simp only [stepBasic, rbS, peek_map]
+    cases pst.peek with
+    | none => simp [failAt, mapResS, hs]
+    | some v => simp [mapResS, hs, push_map, rbS]
+  | dropn n =>
+    simp only [stepBasic, rbS, pop_map]
+    cases pst.pop n with
+    | none => simp [failAt, mapResS, hs]
+    | some r => simp [mapResS, hs, rbS]
+  | dig n =>
+    simp only [stepBasic, rbS, protect_map]
+    cases pst.protect n with
+    | none => simp [failAt, mapResS, hs]
+    | some st1 =>
+      simp only [Option.map_some, pop_map]
+      cases st1.pop 1 with
+      | none => simp [failAt, mapResS, hs]
+      | some r =>
+        obtain ⟨vs, st2⟩ := r
+        simp only [Option.map_some, restore_map]
+        cases st2.restore n with
+        | none => simp [failAt, mapResS, hs]
+        | some st3 => simp [mapResS, hs, rbS, pushAll_map]
+  | dug n =>
+    simp only [stepBasic, rbS, pop_map]
+    cases pst.pop 1 with
+    | none => simp [failAt, mapResS, hs]
+    | some r =>
+      obtain ⟨vs, st1⟩ := r
+      simp only [Option.map_some, protect_map]
+      cases st1.protect n with
+      | none => simp [failAt, mapResS, hs]
+      | some st2 =>
+        simp only [Option.map_some, pushAll_map, restore_map]
+        cases (st2.pushAll vs).restore n with
+        | none => simp [failAt, mapResS, hs]
+        | some st3 => simp [mapResS, hs, rbS]
+  | dupn d =>
+    simp only [stepBasic, rbS, protect_map]
+    cases pst.protect d with
+    | none => simp [failAt, mapResS, hs]
+    | some st1 =>
+      simp only [Option.map_some, peek_map]
+      cases st1.peek with
+      | none => simp [failAt, mapResS, hs]
+      | some v =>
+        simp only [Option.map_some, restore_map]
+        cases st1.restore d with
+        | none => simp [failAt, mapResS, hs]
+        | some st2 => simp [mapResS, hs, rbS, push_map]
+  | emptyBigMap =>
+    simp only [stepBasic, hrd, hrd']
+    have := push_map (Val.map fun (_ : Unit) => cur) pst (.bigmap ⟨[], [], some (getTmpBigMapId c.big).1⟩ ())
+    simp only [Val.map] at this
+    simp [mapResS, rbS, heapStore, unitStore, this]
+  | amount => simpa only [stepBasic] using stepEnv_sim cur h c hc _ pst
+  | balance => simpa only [stepBasic] using stepEnv_sim cur h c hc _ pst
+  | now => simpa only [stepBasic] using stepEnv_sim cur h c hc _ pst
+  | sender => simpa only [stepBasic] using stepEnv_sim cur h c hc _ pst
+  | source => simpa only [stepBasic] using stepEnv_sim cur h c hc _ pst
+  | _ => simpa only [stepBasic] using stepPops_sim cur h c hc _ pst
 
 end sim
 
-theorem runBasics_sim (cur : Nat) (bs : List Basic) (h : List Impl.Session.Ctx) (c : Impl.Session.Ctx) (hc : h[cur]? = some c)
-    (pst : List (Val Unit)) :
-    runBasics heapStore cur bs (rbs cur pst) h =
-      (mapRes (fun _ => cur) (runBasics unitStore () bs pst c).1, h.set cur (runBasics unitStore () bs pst c).2) := by
-  induction bs generalizing h c pst with
-  | nil => simp [runBasics, mapRes, set_self h cur c hc]
-  | cons b bs ih =>
-    simp only [runBasics, stepBasic_sim cur h c hc]
-    cases hr : stepBasic unitStore () b pst c with
+def mapStep (cur : Nat) : Except Fail (Stk (Val Unit) × List Out) → Except Fail (Stk (Val Nat) × List Out)
+  | .ok r => .ok (rbS cur r.1, r.2)
+  | .error f => .error f
+
+/-! ### DIP bodies: the simulation of the leaves lifts to programs -/
+
+theorem executeDip_sim (cur count : Nat)
+    (bodyH : Stk (Val Nat) → List Impl.Session.Ctx → Res (List Impl.Session.Ctx) (Stk (Val Nat) × List Out))
+    (bodyU : Stk (Val Unit) → Impl.Session.Ctx → Res Impl.Session.Ctx (Stk (Val Unit) × List Out))
+    (hb : ∀ pst h c, h[cur]? = some c → bodyH (rbS cur pst) h = (mapStep cur (bodyU pst c).1, h.set cur (bodyU pst c).2))
+    (pst : Stk (Val Unit)) (h : List Impl.Session.Ctx) (c : Impl.Session.Ctx) (hc : h[cur]? = some c) :
+    executeDip count bodyH (rbS cur pst) h =
+      (mapStep cur (executeDip count bodyU pst c).1, h.set cur (executeDip count bodyU pst c).2) := by
+  have hs := set_self h cur c hc
+  simp only [executeDip, rbS, protect_map]
+  cases pst.protect count with
+  | none => simp [failAt, mapStep, hs]
+  | some st1 =>
+    simp only [Option.map_some]
+    have := hb st1 h c hc
+    simp only [rbS] at this
+    rw [this]
+    cases hr : bodyU st1 c with
     | mk r c' =>
       cases r with
-      | error e => simp [mapRes]
-      | ok st' =>
-        simp only [mapRes]
-        have := ih (h.set cur c') c' (get_set h cur c c' hc) st'
-        simp only [rbs] at this
-        rw [this]
-        simp
-        cases (runBasics unitStore () bs st' c').fst <;> rfl
+      | error f => simp [mapStep]
+      | ok r =>
+        simp only [mapStep, rbS, restore_map]
+        cases r.1.restore count with
+        | none => simp [failAt, mapStep]
+        | some st2 => simp [mapStep, rbS]
 
+section prog
+variable {α : Type} (cur : Nat)
+  (stepH : α → Stk (Val Nat) → List Impl.Session.Ctx → Res (List Impl.Session.Ctx) (Stk (Val Nat) × List Out))
+  (stepU : α → Stk (Val Unit) → Impl.Session.Ctx → Res Impl.Session.Ctx (Stk (Val Unit) × List Out))
+
+mutual
+theorem execProg_sim
+    (hstep : ∀ a pst h c, h[cur]? = some c → stepH a (rbS cur pst) h = (mapStep cur (stepU a pst c).1, h.set cur (stepU a pst c).2)) :
+    ∀ (p : Prog α) (pst : Stk (Val Unit)) (h : List Impl.Session.Ctx) (c : Impl.Session.Ctx), h[cur]? = some c →
+      execProg stepH p (rbS cur pst) h = (mapStep cur (execProg stepU p pst c).1, h.set cur (execProg stepU p pst c).2)
+  | .op a, pst, h, c, hc => by simp only [execProg]; exact hstep a pst h c hc
+  | .dip body, pst, h, c, hc => by
+    simp only [execProg]
+    exact executeDip_sim cur 1 _ _ (fun pst h c hc => execProgs_sim hstep body pst h c hc) pst h c hc
+  | .dipn n body, pst, h, c, hc => by
+    simp only [execProg]
+    exact executeDip_sim cur n _ _ (fun pst h c hc => execProgs_sim hstep body pst h c hc) pst h c hc
+theorem execProgs_sim
+    (hstep : ∀ a pst h c, h[cur]? = some c → stepH a (rbS cur pst) h = (mapStep cur (stepU a pst c).1, h.set cur (stepU a pst c).2)) :
+    ∀ (ps : List (Prog α)) (pst : Stk (Val Unit)) (h : List Impl.Session.Ctx) (c : Impl.Session.Ctx), h[cur]? = some c →
+      execProgs stepH ps (rbS cur pst) h = (mapStep cur (execProgs stepU ps pst c).1, h.set cur (execProgs stepU ps pst c).2)
+  | [], pst, h, c, hc => by simp [execProgs, mapStep, set_self h cur c hc]
+  | p :: ps, pst, h, c, hc => by
+    simp only [execProgs]
+    rw [execProg_sim hstep p pst h c hc]
+    cases hr : execProg stepU p pst c with
+    | mk r c1 =>
+      cases r with
+      | error f => simp [mapStep]
+      | ok r =>
+        simp only [mapStep]
+        rw [execProgs_sim hstep ps r.1 (h.set cur c1) c1 (get_set h cur c c1 hc)]
+        cases hr2 : execProgs stepU ps r.1 c1 with
+        | mk r2 c2 => cases r2 <;> simp [mapStep]
+end
+end prog
+
+theorem basicStep_sim (cur : Nat) (b : Basic) (pst : Stk (Val Unit)) (h : List Impl.Session.Ctx) (c : Impl.Session.Ctx)
+    (hc : h[cur]? = some c) :
+    basicStep heapStore cur b (rbS cur pst) h =
+      (mapStep cur (basicStep unitStore () b pst c).1, h.set cur (basicStep unitStore () b pst c).2) := by
+  simp only [basicStep, stepBasic_sim cur h c hc]
+  cases hr : stepBasic unitStore () b pst c with
+  | mk r c' => cases r <;> simp [mapResS, mapStep]
+
+theorem runBasics_sim (cur : Nat) (code : List (Prog Basic)) (pst : Stk (Val Unit)) (h : List Impl.Session.Ctx) (c : Impl.Session.Ctx)
+    (hc : h[cur]? = some c) :
+    runBasics heapStore cur code (rbS cur pst) h =
+      (mapStep cur (runBasics unitStore () code pst c).1, h.set cur (runBasics unitStore () code pst c).2) :=
+  execProgs_sim cur _ _ (basicStep_sim cur) code pst h c hc
 
 theorem attachVal_sim (cur : Nat) (copy : Bool) (v : Val Unit) (c : Impl.BigMap.Ctx) :
     attachVal cur copy v c = ((attachVal () copy v c).1.map (fun _ => cur), (attachVal () copy v c).2) := by
@@ -334,113 +553,117 @@ theorem endWith_sim (cur : Nat) (res : Val Unit) (h : List Impl.Session.Ctx) (c 
     | _ => simp [rb, Val.map, mapAgg, hs]
 
 
-def mapStep (cur : Nat) : Except Impl.Session.Err (List (Val Unit) × List Out) → Except Impl.Session.Err (List (Val Nat) × List Out)
-  | .ok r => .ok (rbs cur r.1, r.2)
-  | .error e => .error e
 
-theorem stepInstr_sim (cur : Nat) (i : Instr) (pst : List (Val Unit)) (h : List Impl.Session.Ctx) (c : Impl.Session.Ctx)
+def mapPop (cur : Nat) : Except Fail (Stk (Val Unit) × Val Unit × Val Unit × List Entry) → Except Fail (Stk (Val Nat) × Val Nat × Val Nat × List Entry)
+  | .ok r => .ok (rbS cur r.1, rb cur r.2.1, rb cur r.2.2.1, r.2.2.2)
+  | .error f => .error f
+
+theorem popResult_sim (cur : Nat) (pst : Stk (Val Unit)) (h : List Impl.Session.Ctx) (c : Impl.Session.Ctx) (hc : h[cur]? = some c) :
+    popResult heapStore cur (rbS cur pst) h =
+      (mapPop cur (popResult unitStore () pst c).1, h.set cur (popResult unitStore () pst c).2) := by
+  have hs := set_self h cur c hc
+  simp only [popResult, rbS, pop_map]
+  cases hp : pst.pop 1 with
+  | none => simp [failAt, mapPop, hs]
+  | some r =>
+    obtain ⟨xs, st1⟩ := r
+    rcases xs with _ | ⟨res, _ | ⟨y, xs⟩⟩
+    · simp [failAt, mapPop, hs]
+    · simp only [Option.map_some, List.map_cons, List.map_nil, map_items, List.isEmpty_map, map_prot]
+      cases hemp : st1.items.isEmpty with
+      | false => simp [failAt, mapPop, hs]
+      | true =>
+        simp only [if_true]
+        have := endWith_sim cur res h c hc
+        simp only [rb] at this
+        rw [this]
+        cases hr : endWith unitStore () res c with
+        | mk r c' => cases r <;> simp [mapAgg, mapPop, failAt, rbS, rb]
+    · simp [failAt, mapPop, hs]
+
+theorem stepInstr_sim (cur : Nat) (i : Instr) (pst : Stk (Val Unit)) (h : List Impl.Session.Ctx) (c : Impl.Session.Ctx)
     (hc : h[cur]? = some c) :
-    stepInstr heapStore cur i (rbs cur pst) h =
+    stepInstr heapStore cur i (rbS cur pst) h =
       (mapStep cur (stepInstr unitStore () i pst c).1, h.set cur (stepInstr unitStore () i pst c).2) := by
   have hs := set_self h cur c hc
   have hrd : heapStore.rd h cur = some c := hc
   have hrd' : unitStore.rd c () = some c := rfl
   cases i with
-  | basic b =>
-    simp only [stepInstr, stepBasic_sim cur h c hc]
-    cases hr : stepBasic unitStore () b pst c with
-    | mk r c' => cases r <;> simp [mapRes, mapStep]
+  | basic b => simp only [stepInstr]; exact basicStep_sim cur b pst h c hc
   | declStorage t => simp [stepInstr, mapStep, heapStore, unitStore, hc]
   | declParam t => simp [stepInstr, mapStep, heapStore, unitStore, hc]
   | declCode code => simp [stepInstr, mapStep, heapStore, unitStore, hc]
   | begin_ p sl =>
     simp only [stepInstr, beginWith_sim cur p sl h c hc]
     cases hr : beginWith unitStore () p sl c with
-    | mk r c' => cases r <;> simp [mapVal, mapStep]
+    | mk r c' =>
+      cases r with
+      | error e => simp [mapVal, mapStep, failAt]
+      | ok v =>
+        simp only [mapVal, mapStep, rb]
+        have := push_map (Val.map fun (_ : Unit) => cur) ({ pst with items := [] } : Stk (Val Unit)) v
+        simp only [Stk.map, List.map_nil] at this
+        simp [rbS, Stk.map, this]
   | commit =>
-    rcases pst with _ | ⟨res, _ | ⟨y, st⟩⟩
-    · simp [stepInstr, mapStep, hs]
-    · simp only [stepInstr, rbs, List.map_cons, List.map_nil]
-      have := endWith_sim cur res h c hc
-      simp only [rb] at this
-      rw [this]
-      cases hr : endWith unitStore () res c with
-      | mk r c' => cases r <;> simp [mapAgg, mapStep, erase_rb, erase_unit]
-    · simp [stepInstr, mapStep, hs]
+    simp only [stepInstr, popResult_sim cur pst h c hc]
+    cases hr : popResult unitStore () pst c with
+    | mk r c' => cases r <;> simp [mapPop, mapStep, erase_rb, erase_unit]
   | run p sl =>
     simp only [stepInstr, hrd, hrd']
     cases c.code with
-    | none => simp [mapStep, hs]
+    | none => simp [mapStep, hs, failAt, Stk.clear]
     | some code =>
       simp only [beginWith_sim cur p sl h c hc]
       cases hr : beginWith unitStore () p sl c with
       | mk r c1 =>
         cases r with
-        | error e => simp [mapVal, mapStep]
+        | error e => simp [mapVal, mapStep, failAt, Stk.clear]
         | ok v =>
           simp only [mapVal]
           have hc1 := get_set h cur c c1 hc
-          have := runBasics_sim cur code (h.set cur c1) c1 hc1 [v]
-          simp only [rbs, List.map_cons, List.map_nil] at this
-          simp only [rb]
-          rw [this]
-          cases hr2 : runBasics unitStore () code [v] c1 with
+          have hpush : (rbS cur pst).clear.push (rb cur v) = rbS cur (pst.clear.push v) := by
+            simp [Stk.clear, Stk.push, rbS, Stk.map, rb]
+          rw [hpush, runBasics_sim cur code _ (h.set cur c1) c1 hc1]
+          cases hr2 : runBasics unitStore () code (pst.clear.push v) c1 with
           | mk r2 c2 =>
             cases r2 with
-            | error e => simp [mapRes, mapStep]
-            | ok st2 =>
-              rcases st2 with _ | ⟨res, _ | ⟨y, st⟩⟩
-              · simp [mapRes, mapStep]
-              · simp only [mapRes, List.map_cons, List.map_nil]
-                have hc2 : ((h.set cur c1).set cur c2)[cur]? = some c2 := get_set _ cur c1 c2 hc1
-                have he := endWith_sim cur res _ c2 hc2
-                simp only [rb] at he
-                rw [he]
-                cases hr3 : endWith unitStore () res c2 with
-                | mk r3 c3 =>
-                  cases r3 with
-                  | error e => simp [mapAgg, mapStep]
-                  | ok r3 =>
-                    simp only [mapAgg, mapStep, rbs, List.map_nil, List.set_set]
-                    have := erase_rb cur res
-                    simp only [rb] at this
-                    rw [this, erase_unit]
-              · simp [mapRes, mapStep]
-  | dropAll => simp [stepInstr, mapStep, hs]
+            | error f => simp [mapStep]
+            | ok r2 =>
+              simp only [mapStep]
+              have hc2 : ((h.set cur c1).set cur c2)[cur]? = some c2 := get_set _ cur c1 c2 hc1
+              rw [popResult_sim cur r2.1 _ c2 hc2]
+              cases hr3 : popResult unitStore () r2.1 c2 with
+              | mk r3 c3 => cases r3 <;> simp [mapPop, mapStep, erase_rb, erase_unit]
+  | dropAll => simp [stepInstr, mapStep, hs, rbS, Stk.map]
   | bigMapDiff =>
-    rcases pst with _ | ⟨v, st⟩
-    · simp [stepInstr, mapStep, hs]
-    · simp only [stepInstr, rbs, List.map_cons]
+    simp only [stepInstr, rbS, peek_map]
+    cases pst.peek with
+    | none => simp [failAt, mapStep, hs]
+    | some v =>
+      simp only [Option.map_some]
       have := aggVal_sim cur v h c hc
       simp only [rb] at this
       rw [this]
       cases hr : aggVal unitStore v c with
-      | mk r c' => cases r <;> simp [mapAgg, mapStep]
-  | parseError => simp [stepInstr, mapStep, hs]
+      | mk r c' => cases r <;> simp [mapAgg, mapStep, failAt, rbS]
+  | patch f v =>
+    simp only [stepInstr, hrd, hrd']
+    cases patchCtx c f v with
+    | ok c' => simp [mapStep, heapStore, unitStore]
+    | error e => simp [mapStep, failAt, hs]
+  | parseError => simp [stepInstr, mapStep, hs, failAt]
 
-theorem runInstrs_sim (cur : Nat) (is : List Instr) (pst : List (Val Unit)) (h : List Impl.Session.Ctx) (c : Impl.Session.Ctx)
+theorem runInstrs_sim (cur : Nat) (is : List (Prog Instr)) (pst : Stk (Val Unit)) (h : List Impl.Session.Ctx) (c : Impl.Session.Ctx)
     (hc : h[cur]? = some c) :
-    runInstrs heapStore cur is (rbs cur pst) h =
-      (mapStep cur (runInstrs unitStore () is pst c).1, h.set cur (runInstrs unitStore () is pst c).2) := by
-  induction is generalizing pst h c with
-  | nil => simp [runInstrs, mapStep, set_self h cur c hc]
-  | cons i is ih =>
-    simp only [runInstrs, stepInstr_sim cur i pst h c hc]
-    cases hr : stepInstr unitStore () i pst c with
-    | mk r c1 =>
-      cases r with
-      | error e => simp [mapStep]
-      | ok r =>
-        simp only [mapStep]
-        rw [ih r.1 (h.set cur c1) c1 (get_set h cur c c1 hc)]
-        cases hr2 : runInstrs unitStore () is r.1 c1 with
-        | mk r2 c2 => cases r2 <;> simp [mapStep]
+    runInstrs heapStore cur is (rbS cur pst) h =
+      (mapStep cur (runInstrs unitStore () is pst c).1, h.set cur (runInstrs unitStore () is pst c).2) :=
+  execProgs_sim cur _ _ (stepInstr_sim cur) is pst h c hc
 
 
 /-! ### cells and sessions: the aliasing-free reading -/
 
 /-- a session state without addresses: the stack and the one context -/
-abbrev PState := List (Val Unit) × Impl.Session.Ctx
+abbrev PState := Stk (Val Unit) × Impl.Session.Ctx
 
 /-- a cell on the aliasing-free state: run; on error nothing changes -/
 def cellP (a : PState) (cl : Cell) : PState × CellResult :=
@@ -461,16 +684,27 @@ def dropFailingP : PState → List Cell → List Cell
     let r := cellP a cl
     if r.2.isFailed then dropFailingP r.1 cs else cl :: dropFailingP r.1 cs
 
-def obsP (a : PState) : Observation := ⟨a.1, (a.1.flatMap Val.refs).map fun _ => some a.2, some a.2⟩
+def obsP (a : PState) : Observation := ⟨a.1.items, a.1.prot, (a.1.items.flatMap Val.refs).map fun _ => some a.2, some a.2⟩
+
+/-- the shape the theorems are about: the stack copy follows the context copy, the stack object is replaced -/
+abbrev repaired : Cfg := ⟨true, .replaceStack⟩
 
 /-- a heap state represents the aliasing-free state `a` -/
 def Rep (σ : State) (a : PState) : Prop := WF σ ∧ σ.heap[σ.cur]? = some a.2 ∧ σ.stack.map erase = a.1
 
-theorem stack_eq_rbs {σ : State} (hwf : WF σ) : σ.stack = rbs σ.cur (σ.stack.map erase) := by
+theorem items_eq_rbs {σ : State} (hwf : WF σ) : σ.stack.items = rbs σ.cur (σ.stack.items.map erase) := by
   simp only [rbs, List.map_map]
-  have : ∀ v ∈ σ.stack, ((Val.map fun _ => σ.cur) ∘ erase) v = v := fun v hv => rb_erase σ.cur v (hwf.2 v hv)
+  have : ∀ v ∈ σ.stack.items, ((Val.map fun _ => σ.cur) ∘ erase) v = v := fun v hv => rb_erase σ.cur v (hwf.2 v hv)
   rw [List.map_congr_left this]
   simp
+
+theorem stack_eq_rbS {σ : State} (hwf : WF σ) : σ.stack = rbS σ.cur (σ.stack.map erase) := by
+  have := items_eq_rbs hwf
+  cases hσ : σ.stack with
+  | mk items prot =>
+    rw [hσ] at this
+    simp only [rbS, Stk.map, rbs] at this ⊢
+    rw [← this]
 
 theorem flatMap_refs_rbs (cur : Nat) (pst : List (Val Unit)) :
     (rbs cur pst).flatMap Val.refs = (pst.flatMap Val.refs).map fun _ => cur := by
@@ -482,39 +716,43 @@ theorem flatMap_refs_rbs (cur : Nat) (pst : List (Val Unit)) :
 
 theorem observe_rep {σ : State} {a : PState} (h : Rep σ a) : observe σ = obsP a := by
   obtain ⟨hwf, hc, hst⟩ := h
-  have hs := stack_eq_rbs hwf
-  simp only [observe, obsP, hc, hst]
+  have hs := items_eq_rbs hwf
+  have hit : σ.stack.items.map erase = a.1.items := by rw [← hst]; rfl
+  have hpr : σ.stack.prot = a.1.prot := by rw [← hst]; rfl
+  simp only [observe, obsP, hc, hit, hpr]
   congr 1
-  rw [hs, flatMap_refs_rbs, hst, List.map_map]
+  rw [hs, flatMap_refs_rbs, hit, List.map_map]
   apply List.map_congr_left
   intro r _
   simp [hc]
 
-theorem rep_init : Rep State.init ([], Ctx.init) := by
-  refine ⟨⟨by simp [State.init], by simp [State.init]⟩, by simp [State.init], by simp [State.init]⟩
+theorem rep_init : Rep State.init (Stk.empty, Ctx.init) := by
+  refine ⟨⟨by simp [State.init], by simp [State.init, Stk.empty]⟩, by simp [State.init], by simp [State.init, Stk.empty, Stk.map]⟩
 
-theorem refs_rbs (cur : Nat) (pst : List (Val Unit)) : ∀ v ∈ rbs cur pst, ∀ r ∈ v.refs, r = cur := by
+theorem refs_rbS (cur : Nat) (pst : Stk (Val Unit)) : ∀ v ∈ (rbS cur pst).items, ∀ r ∈ v.refs, r = cur := by
   intro v hv r hr
   obtain ⟨w, _, rfl⟩ := List.mem_map.1 hv
   rw [refs_map] at hr
   obtain ⟨_, _, rfl⟩ := List.mem_map.1 hr
   rfl
 
-theorem erase_rbs (cur : Nat) (pst : List (Val Unit)) : (rbs cur pst).map erase = pst := by
-  simp only [rbs, List.map_map]
-  have : ∀ v ∈ pst, (erase ∘ Val.map fun _ => cur) v = v := fun v _ => erase_rb cur v
-  rw [List.map_congr_left this]
-  simp
+theorem erase_rbS (cur : Nat) (pst : Stk (Val Unit)) : (rbS cur pst).map erase = pst := by
+  cases pst with
+  | mk items prot =>
+    simp only [rbS, Stk.map, List.map_map, Stk.mk.injEq, and_true]
+    have : ∀ v ∈ items, (erase ∘ Val.map fun _ => cur) v = v := fun v _ => erase_rb cur v
+    rw [List.map_congr_left this]
+    simp
 
-/-- one cell with the repaired backup: the heap run represents the aliasing-free run, with the same result -/
+/-- one cell with the repaired backup and restore: the heap run represents the aliasing-free run, with the same result -/
 theorem cell_rep {σ : State} {a : PState} (h : Rep σ a) (cl : Cell) :
-    Rep (cellWith true σ cl).1 (cellP a cl).1 ∧ (cellWith true σ cl).2 = (cellP a cl).2 := by
+    Rep (cellWith repaired σ cl).1 (cellP a cl).1 ∧ (cellWith repaired σ cl).2 = (cellP a cl).2 := by
   obtain ⟨hwf, hc, hst⟩ := h
   obtain ⟨pst, c⟩ := a
   simp only at hc hst
   have hlt : σ.cur < σ.heap.length := hwf.1
   have hc1 : (σ.heap ++ [c])[σ.cur]? = some c := by rw [List.getElem?_append_left hlt]; exact hc
-  have hs := stack_eq_rbs hwf
+  have hs := stack_eq_rbS hwf
   rw [hst] at hs
   have hsim := runInstrs_sim σ.cur cl pst (σ.heap ++ [c]) c hc1
   simp only [cellWith, hc, cellP]
@@ -527,7 +765,7 @@ theorem cell_rep {σ : State} {a : PState} (h : Rep σ a) (cl : Cell) :
     cases r with
     | ok r =>
       simp only [mapStep]
-      refine ⟨⟨⟨?_, refs_rbs _ _⟩, ?_, erase_rbs _ _⟩, trivial⟩
+      refine ⟨⟨⟨?_, refs_rbS _ _⟩, ?_, erase_rbS _ _⟩, trivial⟩
       · simp only [List.length_set, List.length_append, List.length_cons, List.length_nil]; omega
       · exact get_set _ _ _ _ hc1
     | error e =>
@@ -542,15 +780,16 @@ theorem cell_rep {σ : State} {a : PState} (h : Rep σ a) (cl : Cell) :
       · simp only
         rw [List.getElem?_set_ne (by omega)]
         simp
-      · simp only [List.map_map]
-        rw [← hst]
-        apply List.map_congr_left
-        intro v _
-        simp only [Function.comp, erase, map_map]
-
+      · rw [← hst]
+        cases hσ : σ.stack with
+        | mk items prot =>
+          simp only [Stk.map, List.map_map, Stk.mk.injEq, and_true]
+          apply List.map_congr_left
+          intro v _
+          simp only [Function.comp, erase, map_map]
 
 theorem session_rep {σ : State} {a : PState} (h : Rep σ a) (cs : List Cell) :
-    (sessionWith true σ cs).1 = (sessionP a cs).1 ∧ Rep (sessionWith true σ cs).2 (sessionP a cs).2 := by
+    (sessionWith repaired σ cs).1 = (sessionP a cs).1 ∧ Rep (sessionWith repaired σ cs).2 (sessionP a cs).2 := by
   induction cs generalizing σ a with
   | nil => exact ⟨rfl, h⟩
   | cons cl cs ih =>
@@ -560,7 +799,7 @@ theorem session_rep {σ : State} {a : PState} (h : Rep σ a) (cs : List Cell) :
     exact ⟨by rw [h2, i1], i2⟩
 
 theorem dropFailing_rep {σ : State} {a : PState} (h : Rep σ a) (cs : List Cell) :
-    dropFailingWith true σ cs = dropFailingP a cs := by
+    dropFailingWith repaired σ cs = dropFailingP a cs := by
   induction cs generalizing σ a with
   | nil => rfl
   | cons cl cs ih =>
@@ -606,7 +845,7 @@ def traceP : PState → List Cell → List (CellResult × Observation)
     let r := cellP a cl
     (r.2, obsP r.1) :: traceP r.1 cs
 
-theorem trace_rep {σ : State} {a : PState} (h : Rep σ a) (cs : List Cell) : traceWith true σ cs = traceP a cs := by
+theorem trace_rep {σ : State} {a : PState} (h : Rep σ a) (cs : List Cell) : traceWith repaired σ cs = traceP a cs := by
   induction cs generalizing σ a with
   | nil => rfl
   | cons cl cs ih =>
@@ -627,5 +866,347 @@ theorem traceP_filtered (a : PState) (cs : List Cell) :
     · have hf' : (cellP a cl).2.isFailed = false := by simpa using hf
       simp only [hf', Bool.false_eq_true, if_false, traceP, List.filter_cons, Bool.not_false, if_true]
       rw [ih]
+
+
+/-! ### no protected prefix survives a successful instruction: `protected` comes back to where it was, or to 0 (`clear`) -/
+
+section prot
+variable {α : Type} (s : Stk α)
+
+theorem push_prot (v : α) : (s.push v).prot = s.prot := rfl
+
+theorem pushAll_prot (vs : List α) : (s.pushAll vs).prot = s.prot := by
+  induction vs with
+  | nil => rfl
+  | cons v vs ih => simpa only [Stk.pushAll, List.foldr_cons, push_prot] using ih
+
+theorem pop_prot {k : Nat} {r : List α × Stk α} (h : s.pop k = some r) : r.2.prot = s.prot := by
+  simp only [Stk.pop] at h
+  split at h
+  · cases h
+  · cases h; rfl
+
+theorem popArgs_prot {k : Nat} {r : List α × Stk α} (h : s.popArgs k = some r) : r.2.prot = s.prot := by
+  simp only [Stk.popArgs] at h
+  split at h
+  · cases h; rfl
+  · exact pop_prot s h
+
+theorem protect_prot {k : Nat} {s' : Stk α} (h : s.protect k = some s') : s'.prot = s.prot + k := by
+  simp only [Stk.protect] at h
+  split at h
+  · cases h
+  · cases h; rfl
+
+theorem restore_prot {k : Nat} {s' : Stk α} (h : s.restore k = some s') : s'.prot = s.prot - k ∧ k ≤ s.prot := by
+  simp only [Stk.restore] at h
+  split at h
+  · cases h
+  · cases h; exact ⟨rfl, by omega⟩
+
+end prot
+
+section protInstr
+variable {ρ S : Type} (σ : Store ρ S)
+
+theorem stepPops_prot (b : Basic) (st st' : Stk (Val ρ)) (s s' : S) (h : stepPops σ b st s = (.ok st', s')) : st'.prot = st.prot := by
+  simp only [stepPops] at h
+  cases hp : st.popArgs (arity b) with
+  | none => simp [hp, failAt] at h
+  | some r =>
+    obtain ⟨xs, st1⟩ := r
+    have h1 := popArgs_prot st hp
+    simp only [hp] at h
+    split at h
+    · cases h; rw [pushAll_prot]; exact h1
+    · simp [failAt] at h
+
+theorem stepEnv_prot (cur : ρ) (b : Basic) (st st' : Stk (Val ρ)) (s s' : S) (h : stepEnv σ cur b st s = (.ok st', s')) : st'.prot = st.prot := by
+  simp only [stepEnv] at h
+  split at h
+  · simp [failAt] at h
+  · split at h
+    · cases h; rfl
+    · simp [failAt] at h
+
+theorem stepBasic_prot (cur : ρ) (b : Basic) (st st' : Stk (Val ρ)) (s s' : S) (h : stepBasic σ cur b st s = (.ok st', s')) :
+    st'.prot = st.prot := by
+  cases b with
+  | dup =>
+    simp only [stepBasic] at h
+    split at h
+    · simp [failAt] at h
+    · cases h; rfl
+  | dropn n =>
+    simp only [stepBasic] at h
+    cases hp : st.pop n with
+    | none => simp [hp, failAt] at h
+    | some r => simp only [hp] at h; cases h; exact pop_prot st hp
+  | dig n =>
+    simp only [stepBasic] at h
+    cases h1 : st.protect n with
+    | none => simp [h1, failAt] at h
+    | some st1 =>
+      simp only [h1] at h
+      cases h2 : st1.pop 1 with
+      | none => simp [h2, failAt] at h
+      | some r =>
+        obtain ⟨vs, st2⟩ := r
+        simp only [h2] at h
+        cases h3 : st2.restore n with
+        | none => simp [h3, failAt] at h
+        | some st3 =>
+          simp only [h3] at h
+          cases h
+          have e1 := protect_prot st h1
+          have e2 := pop_prot st1 h2
+          have e3 := (restore_prot st2 h3).1
+          simp only at e2
+          rw [pushAll_prot, e3, e2, e1]; omega
+  | dug n =>
+    simp only [stepBasic] at h
+    cases h1 : st.pop 1 with
+    | none => simp [h1, failAt] at h
+    | some r =>
+      obtain ⟨vs, st1⟩ := r
+      simp only [h1] at h
+      cases h2 : st1.protect n with
+      | none => simp [h2, failAt] at h
+      | some st2 =>
+        simp only [h2] at h
+        cases h3 : (st2.pushAll vs).restore n with
+        | none => simp [h3, failAt] at h
+        | some st3 =>
+          simp only [h3] at h
+          cases h
+          have e1 := pop_prot st h1
+          have e2 := protect_prot st1 h2
+          have e3 := (restore_prot _ h3).1
+          simp only at e1
+          rw [e3, pushAll_prot, e2, e1]; omega
+  | dupn d =>
+    simp only [stepBasic] at h
+    cases h1 : st.protect d with
+    | none => simp [h1, failAt] at h
+    | some st1 =>
+      simp only [h1] at h
+      cases h2 : st1.peek with
+      | none => simp [h2, failAt] at h
+      | some v =>
+        simp only [h2] at h
+        cases h3 : st1.restore d with
+        | none => simp [h3, failAt] at h
+        | some st2 =>
+          simp only [h3] at h
+          cases h
+          have e1 := protect_prot st h1
+          have e3 := (restore_prot st1 h3).1
+          rw [push_prot, e3, e1]; omega
+  | emptyBigMap =>
+    simp only [stepBasic] at h
+    split at h
+    · simp [failAt] at h
+    · cases h; rfl
+  | amount => exact stepEnv_prot σ cur _ st st' s s' (by simpa only [stepBasic] using h)
+  | balance => exact stepEnv_prot σ cur _ st st' s s' (by simpa only [stepBasic] using h)
+  | now => exact stepEnv_prot σ cur _ st st' s s' (by simpa only [stepBasic] using h)
+  | sender => exact stepEnv_prot σ cur _ st st' s s' (by simpa only [stepBasic] using h)
+  | source => exact stepEnv_prot σ cur _ st st' s s' (by simpa only [stepBasic] using h)
+  | _ => exact stepPops_prot σ _ st st' s s' (by simpa only [stepBasic] using h)
+
+/-- `protected` after a successful instruction: back where it was, or 0 -/
+def ProtBack (p p' : Nat) : Prop := p' = p ∨ p' = 0
+
+theorem executeDip_prot {β : Type} (count : Nat) (body : Stk (Val ρ) → S → Res S (Stk (Val ρ) × β))
+    (hb : ∀ st s r s', body st s = (.ok r, s') → ProtBack st.prot r.1.prot)
+    (st : Stk (Val ρ)) (s : S) (r : Stk (Val ρ) × β) (s' : S) (h : executeDip count body st s = (.ok r, s')) :
+    ProtBack st.prot r.1.prot := by
+  simp only [executeDip] at h
+  cases h1 : st.protect count with
+  | none => simp [h1, failAt] at h
+  | some st1 =>
+    simp only [h1] at h
+    cases h2 : body st1 s with
+    | mk r1 s1 =>
+      cases r1 with
+      | error f => simp [h2] at h
+      | ok r1 =>
+        simp only [h2] at h
+        cases h3 : r1.1.restore count with
+        | none => simp [h3, failAt] at h
+        | some st2 =>
+          simp only [h3] at h
+          have hb' := hb st1 s r1 s1 h2
+          cases h
+          have e1 := protect_prot st h1
+          obtain ⟨e3, e4⟩ := restore_prot r1.1 h3
+          rcases hb' with e2 | e2
+          · left; simp only; rw [e3, e2, e1]; omega
+          · right; simp only; rw [e3, e2]; omega
+
+mutual
+theorem execProg_prot {α : Type} (step : α → Stk (Val ρ) → S → Res S (Stk (Val ρ) × List Out))
+    (hstep : ∀ a st s r s', step a st s = (.ok r, s') → ProtBack st.prot r.1.prot) :
+    ∀ (p : Prog α) st s r s', execProg step p st s = (.ok r, s') → ProtBack st.prot r.1.prot
+  | .op a, st, s, r, s', h => by simp only [execProg] at h; exact hstep a st s r s' h
+  | .dip body, st, s, r, s', h => by
+    simp only [execProg] at h
+    exact executeDip_prot 1 _ (fun st s r s' h => execProgs_prot step hstep body st s r s' h) st s r s' h
+  | .dipn n body, st, s, r, s', h => by
+    simp only [execProg] at h
+    exact executeDip_prot n _ (fun st s r s' h => execProgs_prot step hstep body st s r s' h) st s r s' h
+theorem execProgs_prot {α : Type} (step : α → Stk (Val ρ) → S → Res S (Stk (Val ρ) × List Out))
+    (hstep : ∀ a st s r s', step a st s = (.ok r, s') → ProtBack st.prot r.1.prot) :
+    ∀ (ps : List (Prog α)) st s r s', execProgs step ps st s = (.ok r, s') → ProtBack st.prot r.1.prot
+  | [], st, s, r, s', h => by simp only [execProgs] at h; cases h; exact Or.inl rfl
+  | p :: ps, st, s, r, s', h => by
+    simp only [execProgs] at h
+    cases h1 : execProg step p st s with
+    | mk r1 s1 =>
+      cases r1 with
+      | error f => simp [h1] at h
+      | ok r1 =>
+        simp only [h1] at h
+        cases h2 : execProgs step ps r1.1 s1 with
+        | mk r2 s2 =>
+          cases r2 with
+          | error f => simp [h2] at h
+          | ok r2 =>
+            simp only [h2] at h
+            have e1 := execProg_prot step hstep p st s r1 s1 h1
+            have e2 := execProgs_prot step hstep ps r1.1 s1 r2 s2 h2
+            cases h
+            simp only
+            rcases e1 with e1 | e1 <;> rcases e2 with e2 | e2
+            · left; rw [e2, e1]
+            · right; exact e2
+            · right; rw [e2, e1]
+            · right; exact e2
+end
+
+theorem basicStep_prot (cur : ρ) (b : Basic) (st : Stk (Val ρ)) (s : S) (r : Stk (Val ρ) × List Out) (s' : S)
+    (h : basicStep σ cur b st s = (.ok r, s')) : ProtBack st.prot r.1.prot := by
+  simp only [basicStep] at h
+  cases h1 : stepBasic σ cur b st s with
+  | mk r1 s1 =>
+    cases r1 with
+    | error f => simp [h1] at h
+    | ok st1 =>
+      simp only [h1] at h
+      have e := stepBasic_prot σ cur b st st1 s s1 h1
+      cases h
+      exact Or.inl e
+
+theorem popResult_prot (cur : ρ) (st : Stk (Val ρ)) (s : S) (r : Stk (Val ρ) × Val ρ × Val ρ × List Entry) (s' : S)
+    (h : popResult σ cur st s = (.ok r, s')) : r.1.prot = st.prot := by
+  simp only [popResult] at h
+  split at h
+  · rename_i res stk1 hp
+    have e := pop_prot st hp
+    split at h
+    · split at h
+      · cases h; exact e
+      · simp [failAt] at h
+    · simp [failAt] at h
+  · simp [failAt] at h
+
+theorem stepInstr_prot (cur : ρ) (i : Instr) (st : Stk (Val ρ)) (s : S) (r : Stk (Val ρ) × List Out) (s' : S)
+    (h : stepInstr σ cur i st s = (.ok r, s')) : ProtBack st.prot r.1.prot := by
+  cases i with
+  | basic b => exact basicStep_prot σ cur b st s r s' (by simpa only [stepInstr] using h)
+  | declStorage t =>
+    simp only [stepInstr] at h
+    split at h
+    · simp [failAt] at h
+    · cases h; exact Or.inl rfl
+  | declParam t =>
+    simp only [stepInstr] at h
+    split at h
+    · simp [failAt] at h
+    · cases h; exact Or.inl rfl
+  | declCode code =>
+    simp only [stepInstr] at h
+    split at h
+    · simp [failAt] at h
+    · cases h; exact Or.inl rfl
+  | begin_ p sl =>
+    simp only [stepInstr] at h
+    split at h
+    · cases h; exact Or.inl rfl
+    · simp [failAt] at h
+  | commit =>
+    simp only [stepInstr] at h
+    split at h
+    · rename_i q s1 hq
+      have e := popResult_prot σ cur st s q s1 hq
+      cases h
+      exact Or.inl e
+    · simp at h
+  | run p sl =>
+    simp only [stepInstr] at h
+    split at h
+    · simp [failAt] at h
+    · split at h
+      · simp [failAt] at h
+      · split at h
+        · simp [failAt] at h
+        · split at h
+          · simp at h
+          · rename_i v s1 _ r2 s2 h2
+            split at h
+            · rename_i q s3 hq
+              have e1 := execProgs_prot (basicStep σ cur) (basicStep_prot σ cur) _ _ _ _ _ h2
+              have e2 := popResult_prot σ cur _ _ q _ hq
+              cases h
+              right
+              simp only [Stk.clear, push_prot, ProtBack] at e1
+              simp only
+              rw [e2]
+              rcases e1 with e1 | e1 <;> exact e1
+            · simp at h
+  | dropAll => simp only [stepInstr] at h; cases h; exact Or.inl rfl
+  | bigMapDiff =>
+    simp only [stepInstr] at h
+    split at h
+    · simp [failAt] at h
+    · split at h
+      · cases h; exact Or.inl rfl
+      · simp [failAt] at h
+  | patch f v =>
+    simp only [stepInstr] at h
+    split at h
+    · simp [failAt] at h
+    · split at h
+      · cases h; exact Or.inl rfl
+      · simp [failAt] at h
+  | parseError => simp [stepInstr, failAt] at h
+
+/-- a cell body that starts with nothing protected ends with nothing protected -/
+theorem runInstrs_prot_zero (cur : ρ) (cl : List (Prog Instr)) (st : Stk (Val ρ)) (s : S) (r : Stk (Val ρ) × List Out) (s' : S)
+    (h0 : st.prot = 0) (h : runInstrs σ cur cl st s = (.ok r, s')) : r.1.prot = 0 := by
+  have := execProgs_prot (stepInstr σ cur) (stepInstr_prot σ cur) cl st s r s' h
+  rcases this with e | e
+  · rw [e, h0]
+  · exact e
+
+end protInstr
+
+/-- with the repaired restore (the stack object is replaced by its copy) no cell leaves a protected prefix behind -/
+theorem cellWith_prot_zero (σ : State) (h0 : σ.stack.prot = 0) (cl : Cell) : (cellWith repaired σ cl).1.stack.prot = 0 := by
+  simp only [cellWith]
+  cases hc : σ.heap[σ.cur]? with
+  | none => exact h0
+  | some ctx =>
+    simp only
+    cases hr : runInstrs heapStore σ.cur cl σ.stack (σ.heap ++ [ctx]) with
+    | mk r h =>
+      cases r with
+      | ok r => exact runInstrs_prot_zero heapStore σ.cur cl σ.stack _ r h h0 hr
+      | error f => exact h0
+
+theorem sessionWith_prot_zero (σ : State) (h0 : σ.stack.prot = 0) (cs : List Cell) : (sessionWith repaired σ cs).2.stack.prot = 0 := by
+  induction cs generalizing σ with
+  | nil => exact h0
+  | cons cl cs ih => exact ih _ (cellWith_prot_zero σ h0 cl)
 
 end Proofs.C22
